@@ -105,8 +105,16 @@ func (r *TaskRunner) SetVariables(vars variables.Container) *TaskRunner {
 // Run run provided task -> highly modified from taskctl/runner/runner.go
 // TaskRunner first compiles task into linked list of Jobs, then passes those jobs to Executor
 func (r *TaskRunner) Run(t *task.Task) error {
-	// Keep track of running tasks for graceful shutdown and waiting until all tasks are canceled
+	// Keep track of running tasks for graceful shutdown and waiting until all tasks are canceled.
+	// The task is registered under the cancel mutex: Cancel waits for the registered tasks, and a WaitGroup must not be
+	// added to (from zero) concurrently with its Wait.
+	r.cancelMutex.Lock()
+	if r.canceling {
+		r.cancelMutex.Unlock()
+		return r.ctx.Err()
+	}
 	r.wg.Add(1)
+	r.cancelMutex.Unlock()
 	defer r.wg.Done()
 
 	if err := r.ctx.Err(); err != nil {
